@@ -128,3 +128,107 @@ package measure
 //@   ensures  shifted-tags: forall k :: i <= k && k < len(d.tagFamilies) ==> samehdr(d.tagFamilies[k], old(d.tagFamilies[k+1]))
 //@   ensures  before-fields: forall k :: 0 <= k && k < i && k < len(d.fields) ==> d.fields[k] == old(d.fields[k])
 //@   ensures  shifted-fields: forall k :: i <= k && k < len(d.fields) ==> d.fields[k] == old(d.fields[k+1])
+//
+//@ section C19 C05
+// ---- snapshot reference counting and file snapshots of a shard table ----
+//@ func partWrapper.incRef
+//@   mode int
+//@   opt wrap int32
+//@   requires pw != nil && pw.ref < 2147483647
+//@   modifies pw.ref
+//@   ensures  pw.ref == old(pw.ref) + 1
+//@ func partWrapper.decRef
+//@   assumed gives one reference back; at zero the part is closed and, if flagged removable, its files are deleted in a goroutine (not modelled)
+//@   requires pw != nil
+//@   modifies pw.ref
+//@   ensures  pw.ref == old(pw.ref) - 1
+//@ func snapshot.incRef
+//@   mode int
+//@   opt wrap int32
+//@   requires s != nil && s.ref < 2147483647
+//@   modifies s.ref
+//@   ensures  s.ref == old(s.ref) + 1
+//
+// decRef: while other holders remain nothing else changes; the last holder releases every part of the snapshot exactly once
+//@ spec func partsOK(s *snapshot) bool = (forall k :: 0 <= k && k < len(s.parts) ==> s.parts[k] != nil && pidx(s.parts[k]) == 0) && (forall a, b :: 0 <= a && a < b && b < len(s.parts) ==> ref(s.parts[a]) != ref(s.parts[b]))
+//@ func snapshot.decRef
+//@   mode int
+//@   opt wrap int32
+//@   requires s != nil && partsOK(s) && s.ref > -2147483648
+//@   modifies s.ref
+//@   modifies s.parts
+//@   modifies allof(partWrapper.ref)
+//@   ensures  counted: s.ref == old(s.ref) - 1
+//@   ensures  still-held: old(s.ref) > 1 ==> samehdr(s.parts, old(s.parts)) && (forall p *partWrapper :: p.ref == old(p.ref))
+//@   ensures  last-holder: old(s.ref) <= 1 ==> len(s.parts) == 0 && (forall k :: 0 <= k && k < old(len(s.parts)) ==> old(s.parts[k]).ref == old(old(s.parts[k]).ref) - 1)
+//@   loop 0 invariant samehdr(s.parts, old(s.parts)) && s.ref == old(s.ref) - 1
+//@   loop 0 invariant released: forall k :: 0 <= k && k < range_i ==> s.parts[k].ref == old(s.parts[k].ref) - 1
+//@   loop 0 invariant pending: forall k :: range_i <= k && k < len(s.parts) ==> s.parts[k].ref == old(s.parts[k].ref)
+//
+//@ func tsTable.currentSnapshot
+//@   mode int
+//@   opt wrap int32
+//@   requires tst != nil && (tst.snapshot == nil || tst.snapshot.ref < 2147483647)
+//@   modifies tst.snapshot.ref
+//@   ensures  result == tst.snapshot
+//@   ensures  result != nil ==> result.ref == old(tst.snapshot.ref) + 1
+//
+//@ ghost var fileSnapshotRemoved bool
+//@ func fs.FileSystem.CreateHardLink
+//@   assumed file system: hard-links a part directory (all of its files) into the destination
+//@ func fs.FileSystem.MustRMAll
+//@   assumed file system: removes the destination directory
+//@   modifies fileSnapshotRemoved
+//@   ensures  fileSnapshotRemoved
+//@ func fs.FileSystem.SyncPath
+//@   assumed file system
+//@ func fs.FileSystem.CreateFile
+//@   assumed file system
+//@ func fs.File.Write
+//@   assumed file system
+//@ func filepath.Join
+//@   assumed path manipulation
+//@   pure
+//@ func filepath.Base
+//@   assumed path manipulation
+//@   pure
+//@ func filepath.Dir
+//@   assumed path manipulation
+//@   pure
+//@ func json.Marshal
+//@   assumed encoding/json
+//@   pure
+//@ func partName
+//@   assumed formatting of a part id
+//@   pure
+//@ func snapshotName
+//@   assumed formatting of an epoch
+//@   pure
+//@ func partWrapper.ID
+//@   assumed reads the part id
+//@   pure
+//@ func tsTable.createMetadata
+//@   assumed writes the manifest (json list of part names of the given snapshot, file named after its epoch) - external I/O
+//
+// TakeFileSnapshot: the table's current snapshot is pinned before the first part is linked and stays pinned until the
+// manifest of THAT snapshot has been written; the pin is given back exactly once on every path; a failure removes the
+// destination. (The table itself holds one reference, so the pin never is the last one.)
+//@ func tsTable.TakeFileSnapshot
+//@   mode int
+//@   opt wrap int32
+//@   requires tst != nil && (tst.snapshot == nil || (tst.snapshot.ref >= 1 && tst.snapshot.ref < 2147483647 && partsOK(tst.snapshot)))
+//@   requires !fileSnapshotRemoved
+//@   requires backed: tst.snapshot != nil ==> (forall k :: 0 <= k && k < len(tst.snapshot.parts) ==> tst.snapshot.parts[k].mp != nil || tst.snapshot.parts[k].p != nil)
+//@   modifies tst.snapshot.ref
+//@   modifies tst.snapshot.parts
+//@   modifies allof(partWrapper.ref)
+//@   modifies fileSnapshotRemoved
+//@   at-call CreateHardLink requires pinned-while-linking: tst.snapshot != nil && tst.snapshot.ref == old(tst.snapshot.ref) + 1
+//@   at-call createMetadata requires manifest-of-the-pinned-snapshot: arg1 == tst.snapshot && tst.snapshot.ref == old(tst.snapshot.ref) + 1
+//@   ensures  none: tst.snapshot == nil ==> !result0 && result1 != nil
+//@   ensures  pin-returned: tst.snapshot != nil ==> tst.snapshot.ref == old(tst.snapshot.ref)
+//@   ensures  parts-untouched: tst.snapshot != nil ==> samehdr(tst.snapshot.parts, old(tst.snapshot.parts)) && (forall p *partWrapper :: p.ref == old(p.ref))
+//@   ensures  failure-cleans-up: result1 != nil && tst.snapshot != nil ==> fileSnapshotRemoved
+//@   ensures  success-keeps: result1 == nil ==> !fileSnapshotRemoved
+//@   loop 0 invariant tst.snapshot == old(tst.snapshot) && snapshot == tst.snapshot && tst.snapshot.ref == old(tst.snapshot.ref) + 1 && !fileSnapshotRemoved && err == nil && partsOK(snapshot)
+//@   loop 0 invariant samehdr(snapshot.parts, old(tst.snapshot.parts)) && (forall p *partWrapper :: p.ref == old(p.ref)) && (forall k :: 0 <= k && k < len(snapshot.parts) ==> snapshot.parts[k].mp != nil || snapshot.parts[k].p != nil)
